@@ -10,7 +10,9 @@ use tracing::{trace, warn};
 
 use crate::{
     common::http::{HttpRequest, HttpResponse},
-    context::{Context, ContextCallback, ContextRef, ContextRefOps, Feature, IOBufStream},
+    context::{
+        Context, ContextCallback, ContextRef, ContextRefOps, Feature, IOBufStream, TargetAddress,
+    },
 };
 
 use super::frames::{frames_from_stream, FrameIO};
@@ -30,6 +32,12 @@ where
     tracing::trace!("h11c_connect: channel={}", frame_channel);
     let target = ctx.read().await.target();
     let feature = ctx.read().await.feature();
+    if let TargetAddress::DomainPort(host, _) = &target {
+        // would be split into extra request line fields or header lines by the upstream server
+        if host.chars().any(|c| c.is_ascii_whitespace() || c.is_control()) {
+            bail!("target host can not be sent in a CONNECT request: {:?}", host);
+        }
+    }
     match feature {
         Feature::TcpForward => {
             HttpRequest::new("CONNECT", &target)
